@@ -4,7 +4,7 @@ import copy
 from hypothesis import strategies as st
 
 from vlib.core import Outcome, Part
-from vlib import gen_hed, hedenv, xmlschema
+from vlib import fuzz, gen_hed, hedenv, xmlschema
 
 PROPERTY = "C15"
 LEVEL = "exploration"
@@ -381,4 +381,12 @@ def parts(tier):
     q = tier == "quick"
     return [Part("laws", oracle_laws, strategy=laws_case(), n=3000 if q else 128000),
             Part("compile", oracle_compile, strategy=compile_text, n=5000 if q else 200000),
-            Part("unbalanced-from-grammar", oracle_broken, strategy=broken_query(), n=2000 if q else 64000)]
+            Part("unbalanced-from-grammar", oracle_broken, strategy=broken_query(), n=2000 if q else 64000)] + \
+        ([] if q else [Part("coverage-guided", oracle_compile, enumerate_fn=fuzz.make_enum("c15", 150000, 48),
+                            distinct_by_construction=False)])
+
+
+def extra_evidence(tier):
+    return {"coverage_guided_engine": ("atheris campaigns per shard; corpus and objections replayed through the oracle"
+                                       if tier != "quick" and fuzz.available() else
+                                       ("not used in the quick tier" if tier == "quick" else "atheris not installed: part empty"))}
